@@ -286,6 +286,77 @@ def _f_rp_metrics():
     return out
 
 
+def _f_ts_constructors():
+    """Every recurrence-type class under its documented constructor keywords (normalize, metric, embedding,
+    missing values, sparse mode, every way of prescribing the recurrences), each from its own caller arrays
+    - scalar and two-dimensional: no constructor is documented to edit the series it is given."""
+    import pyunicorn.timeseries as ts
+    out = {}
+
+    def series(two_d, nan=False):
+        x = np.array(families.SERIES, dtype=float)
+        y = np.array(families.SERIES_Y, dtype=float)
+        if nan:
+            x[3] = np.nan
+        if two_d:
+            return V(np.array([x, x[::-1]]).T), V(np.array([y, y[::-1]]).T)
+        return V(x), V(y)
+
+    single = dict(threshold=0.6), dict(threshold_std=0.5), dict(recurrence_rate=0.3), dict(local_recurrence_rate=0.3), \
+        dict(adaptive_neighborhood_size=3)
+    for norm in (False, True):
+        for two_d in (False, True):
+            for k, mode in enumerate(single):
+                for cls in (ts.RecurrencePlot, ts.RecurrenceNetwork):
+                    kw = dict(mode, metric=("supremum", "euclidean", "manhattan")[k % 3], normalize=norm, silence_level=3)
+                    if not two_d and k % 2:
+                        kw.update(dim=2, tau=2)
+                    if k == 1 and cls is ts.RecurrencePlot:
+                        kw.update(sparse_rqa=False)
+                    x, _ = series(two_d)
+                    obj = cls(x, **kw)
+                    obj.recurrence_matrix(), obj.recurrence_rate(), obj.diagline_dist(), obj.vertline_dist()
+                    out["%s,%s,norm=%s,2d=%s" % (cls.__name__, list(mode)[0], norm, two_d)] = x
+            xm, _ = series(two_d, nan=True)
+            rp = ts.RecurrencePlot(xm, threshold=0.6, missing_values=True, normalize=norm, silence_level=3)
+            rp.recurrence_matrix(), rp.diagline_dist()
+            out["RecurrencePlot,missing,norm=%s,2d=%s" % (norm, two_d)] = xm
+            if not two_d:
+                xs, _ = series(False)
+                rp = ts.RecurrencePlot(xs, threshold=0.6, metric="supremum", sparse_rqa=True, normalize=norm,
+                                       silence_level=3)
+                rp.diagline_dist(), rp.vertline_dist()
+                out["RecurrencePlot,sparse,norm=%s" % norm] = xs
+            for mode in (dict(threshold=0.6), dict(recurrence_rate=0.3)):
+                x, y = series(two_d)
+                kw = dict(mode, normalize=norm, silence_level=3)
+                if not two_d and "threshold" in mode:
+                    kw.update(dim=2, tau=1)
+                crp = ts.CrossRecurrencePlot(x, y[:-2], **kw)
+                crp.recurrence_matrix(), crp.cross_recurrence_rate()
+                tag = "%s,norm=%s,2d=%s" % (list(mode)[0], norm, two_d)
+                out["CrossRecurrencePlot.x," + tag], out["CrossRecurrencePlot.y," + tag] = x, y
+                x, y = series(two_d)
+                kw = {k: (v, v, v) for k, v in mode.items()}
+                kw.update(normalize=norm, silence_level=3)
+                if not two_d and "threshold" in mode:
+                    kw.update(dim=2, tau=(2, 1))
+                isrn = ts.InterSystemRecurrenceNetwork(x, y[:-2], **kw)
+                isrn.adjacency, isrn.cross_recurrence_rate(), isrn.internal_recurrence_rates()
+                out["InterSystemRecurrenceNetwork.x," + tag], out["InterSystemRecurrenceNetwork.y," + tag] = x, y
+                for cls in (ts.JointRecurrencePlot, ts.JointRecurrenceNetwork):
+                    x, y = series(two_d)
+                    kw = {k: (v, v + 0.1) for k, v in mode.items()}
+                    kw.update(normalize=norm, silence_level=3, lag=(1 if "threshold" in mode else 0),
+                              metric=("supremum", "euclidean"))
+                    if not two_d and "threshold" in mode:
+                        kw.update(dim=(2, 2), tau=(1, 2))
+                    j = cls(x, y, **kw)
+                    j.recurrence_matrix(), j.recurrence_rate()
+                    out[cls.__name__ + ".x," + tag], out[cls.__name__ + ".y," + tag] = x, y
+    return out
+
+
 def _f_coupling():
     from pyunicorn.funcnet import CouplingAnalysis
     d = V(np.array([families.SERIES, families.SERIES_Y, families.SERIES[::-1]]).T)
@@ -438,7 +509,7 @@ def _f_data_views():
 
 
 FUNCS = {"data_views": _f_data_views, "rejection_sampling": _f_rejection, "embed": _f_embed, "rp_metrics": _f_rp_metrics,
-         "coupling": _f_coupling, "eventseries": _f_eventseries,
+         "ts_constructors": _f_ts_constructors, "coupling": _f_coupling, "eventseries": _f_eventseries,
          "visibility_inputs": _f_visibility, "geo": _f_geo, "geogrid": _f_geogrid, "data_helpers": _f_data_helpers, "interacting_inputs": _f_interacting,
          "network_ops": _f_network_ops}
 
